@@ -20,6 +20,7 @@ package writer
 import (
 	"bytes"
 	"fmt"
+	"math"
 
 	jp "github.com/buger/jsonparser"
 	. "github.com/siglens/siglens/pkg/segment/utils"
@@ -56,14 +57,17 @@ func ParseRawJsonObject(currKey string, data []byte, tsKey *string,
 			// Pass nil instead of the buffer so that jp.Unescape allocates a new buffer for each value.
 			firstBackslash := bytes.IndexByte(value, '\\')
 			if firstBackslash != -1 {
-				valUnescaped, err := jp.Unescape(value, nil)
-				if err != nil {
+				valUnescaped, unescErr := jp.Unescape(value, nil)
+				if unescErr != nil {
 					return fmt.Errorf("parseRawJsonObject: failed to unescape currKey: %v, err: %v",
-						currKey, err)
+						currKey, unescErr)
 				}
-				parseSingleString(finalKey, tsKey, valUnescaped, ple)
+				err = parseSingleString(finalKey, tsKey, valUnescaped, ple)
 			} else {
-				parseSingleString(finalKey, tsKey, value, ple)
+				err = parseSingleString(finalKey, tsKey, value, ple)
+			}
+			if err != nil {
+				return fmt.Errorf("parseRawJsonObject: str currKey: %v, err: %v", currKey, err)
 			}
 		case jp.Number:
 			numVal, err := jp.ParseInt(value)
@@ -125,14 +129,18 @@ func parseNonJaegerRawJsonArray(currKey string, data []byte, tsKey *string,
 			// Pass nil instead of the buffer so that jp.Unescape allocates a new buffer for each value.
 			firstBackslash := bytes.IndexByte(value, '\\')
 			if firstBackslash != -1 {
-				valUnescaped, encErr := jp.Unescape(value, nil)
+				valUnescaped, unescErr := jp.Unescape(value, nil)
 				if err != nil {
-					finalErr = encErr
+					finalErr = unescErr
 					return
 				}
-				parseSingleString(finalKey, tsKey, valUnescaped, ple)
+				encErr = parseSingleString(finalKey, tsKey, valUnescaped, ple)
 			} else {
-				parseSingleString(finalKey, tsKey, value, ple)
+				encErr = parseSingleString(finalKey, tsKey, value, ple)
+			}
+			if encErr != nil {
+				finalErr = encErr
+				return
 			}
 		case jp.Number:
 			numVal, encErr := jp.ParseInt(value)
@@ -166,10 +174,16 @@ func parseNonJaegerRawJsonArray(currKey string, data []byte, tsKey *string,
 	return finalErr
 }
 
-func parseSingleString(key string, tsKey *string, valBytes []byte, ple *ParsedLogEvent) {
+func parseSingleString(key string, tsKey *string, valBytes []byte, ple *ParsedLogEvent) error {
 
 	if key == *tsKey {
-		return
+		return nil
+	}
+
+	// the record header stores the length of a string value in two bytes
+	if len(valBytes) > math.MaxUint16 {
+		return fmt.Errorf("parseSingleString: value of column %v has %v bytes, the maximum is %v",
+			key, len(valBytes), math.MaxUint16)
 	}
 
 	ple.MakeSpaceForNewColumn()
@@ -184,6 +198,7 @@ func parseSingleString(key string, tsKey *string, valBytes []byte, ple *ParsedLo
 	ple.allCvals[ple.numCols] = valBytes
 
 	ple.numCols++
+	return nil
 }
 
 func parseSingleBool(key string, val bool, tsKey *string, ple *ParsedLogEvent) {
